@@ -294,7 +294,31 @@ func Solve(frs []*FuncResult, dir string, timeoutS int, keepDir string) {
 		}(fr)
 	}
 	wg.Wait()
+	// second chance for obligations that no solver decided: longer budget, one at a time per function (less contention)
+	var wg3 sync.WaitGroup
+	for _, fr := range frs {
+		for _, o := range fr.Obls {
+			if o.Verdict == "proved" || o.Verdict == "refuted" {
+				continue
+			}
+			wg3.Add(1)
+			go func(fr *FuncResult, o *Obligation) {
+				defer wg3.Done()
+				retrySem <- struct{}{}
+				defer func() { <-retrySem }()
+				prev := *o
+				raceOne(fr, o, dir, timeoutS*4, keepDir)
+				if o.Verdict != "proved" && o.Verdict != "refuted" && prev.Verdict == "candidate" && o.Verdict != "candidate" {
+					*o = prev
+				}
+				o.Output = "first pass: " + prev.Verdict + "\n" + o.Output
+			}(fr, o)
+		}
+	}
+	wg3.Wait()
 }
+
+var retrySem = make(chan struct{}, 4)
 
 // relaxedQuery drops every quantified assertion: a model of it is only a candidate counterexample.
 func relaxedQuery(fr *FuncResult, o *Obligation) string {
